@@ -155,7 +155,8 @@ class Request(HTTPConnection):
                 return json.loads(
                     self.body.decode(self.content_type.options.get("charset", "utf8"))
                 )
-            except json.JSONDecodeError as exc:
+            except (json.JSONDecodeError, UnicodeError, LookupError) as exc:
+                # also: the body is not text in the declared charset / unknown charset
                 raise MalformedJSON(str(exc)) from None
 
         raise UnsupportedMediaType("application/json")
